@@ -16,6 +16,7 @@ import (
 	zcommon "github.com/protolambda/zrnt/eth2/beacon/common"
 	"github.com/protolambda/zrnt/eth2/beacon/deneb"
 	"github.com/protolambda/zrnt/eth2/beacon/electra"
+	"github.com/protolambda/ztyp/codec"
 	"github.com/protolambda/ztyp/tree"
 	"github.com/zen-eth/shisui/beacon"
 	"github.com/zen-eth/shisui/portalwire"
@@ -306,7 +307,7 @@ func newNetWorld(tw *tracelog.Writer, rng *rand.Rand, t int) (*netWorld, error) 
 	n := &netWorld{world: w, inner: w.st, orc: &stubOracle{}, rng: rng, salt: uint64(rng.Intn(1000)) * 16}
 	w.st = logStore{n}
 	w.bootByKey = true
-	n.node, err = netsim.NewNode(netsim.NewSwitch(), netsim.NodeOpts{IP: "10.0.0.1", Port: 9001, Protocol: portalwire.Beacon, Store: w.st, NoStart: true})
+	n.node, err = netsim.NewNode(netsim.NewSwitch(), netsim.NodeOpts{IP: "10.0.0.1", Port: 9001, Protocol: portalwire.Beacon, Store: w.st})
 	if err != nil {
 		return nil, err
 	}
@@ -318,8 +319,7 @@ func newNetWorld(tw *tracelog.Writer, rng *rand.Rand, t int) (*netWorld, error) 
 }
 
 func (n *netWorld) closeNet() {
-	n.node.D5.Close()
-	n.inner.Close()
+	n.node.Stop() // closes the store through the protocol
 }
 
 func (n *netWorld) restartNet() error {
@@ -361,6 +361,95 @@ func (n *netWorld) deliver(items []absItem, size int) {
 	}
 	n.w.Emit(map[string]any{"ev": "done", "t": n.t, "res": r})
 	n.observe()
+	n.observeAPI()
+}
+
+// observeAPI reads the same universe through the network's own getters (GetCheckpointData / GetUpdates / GetFinalityUpdate /
+// GetOptimisticUpdate: local store first, else a lookup - which would sleep a second on this node's empty table, so the
+// getters are asked only for what the store holds). Each answer is logged as the
+// fingerprint of the returned object's encoding next to the fingerprint of the stored bytes without their fork digest.
+func (n *netWorld) observeAPI() {
+	one := func(f func() (zcommon.SpecObj, error), k []byte, id []byte) ([]int, []int) {
+		if v, _ := n.get(k, id); v == nil {
+			return []int{0}, []int{0}
+		}
+		var o zcommon.SpecObj
+		err := guardErr(func() error {
+			var e error
+			o, e = f()
+			return e
+		})
+		api := []int{0}
+		switch {
+		case errors.Is(err, errPanic):
+			api = []int{-1}
+		case err == nil && o != nil:
+			api = []int{common.Tag(ser(o))}
+		}
+		v, _ := n.get(k, id)
+		body := []int{0}
+		if len(v) > 4 {
+			body = []int{common.Tag(v[4:])}
+		}
+		return api, body
+	}
+	boot, bootB, fin, finB, opt, optB := [][]int{}, [][]int{}, [][]int{}, [][]int{}, [][]int{}, [][]int{}
+	for i := 0; i < nIds; i++ {
+		k := key(0x10, n.ids[i])
+		var h tree.Root
+		copy(h[:], n.ids[i])
+		a, b := one(func() (zcommon.SpecObj, error) { return n.bn.GetCheckpointData(h) }, k, cid(k))
+		boot, bootB = append(boot, a), append(bootB, b)
+	}
+	for i := range points {
+		s := points[i]
+		k := key(0x12, u64(s))
+		a, b := one(func() (zcommon.SpecObj, error) { return n.bn.GetFinalityUpdate(s) }, k, cid(k))
+		fin, finB = append(fin, a), append(finB, b)
+		k = key(0x13, u64(s))
+		a, b = one(func() (zcommon.SpecObj, error) { return n.bn.GetOptimisticUpdate(s) }, k, cid(k))
+		opt, optB = append(opt, a), append(optB, b)
+	}
+	upd := []map[string]any{}
+	for s := 0; s <= maxPeriod; s++ {
+		for c := 1; c <= maxRange && s+c-1 <= maxPeriod; c++ {
+			k := key(0x11, u64(n.p0+uint64(s)), u64(uint64(c)))
+			v, _ := n.get(k, cid(k))
+			if v == nil {
+				upd = append(upd, map[string]any{"s": s, "c": c, "api": []int{0}, "body": []int{0}})
+				continue
+			}
+			var objs []zcommon.SpecObj
+			err := guardErr(func() error {
+				var e error
+				objs, e = n.bn.GetUpdates(n.p0+uint64(s), uint64(c))
+				return e
+			})
+			api := []int{}
+			switch {
+			case errors.Is(err, errPanic):
+				api = []int{-1}
+			case err != nil:
+				api = []int{0}
+			default:
+				for _, o := range objs {
+					api = append(api, common.Tag(ser(o)))
+				}
+			}
+			body := []int{0}
+			if v != nil {
+				var rg tbeacon.LightClientUpdateRange
+				if err := rg.Deserialize(spec, codec.NewDecodingReader(bytes.NewReader(v), uint64(len(v)))); err == nil {
+					body = []int{}
+					for i := range rg {
+						body = append(body, common.Tag(ser(rg[i].LightClientUpdate)))
+					}
+				}
+			}
+			upd = append(upd, map[string]any{"s": s, "c": c, "api": api, "body": body})
+		}
+	}
+	n.w.Emit(map[string]any{"ev": "api", "t": n.t, "boot": boot, "bootBody": bootB, "fin": fin, "finBody": finB, "opt": opt, "optBody": optB, "upd": upd})
 }
 
 type genNetOp struct {
